@@ -347,6 +347,8 @@ class ExprMixin:
                 r = eq(a, b)
             elif is_bool(a) and is_bool(b):
                 r = a == b
+            elif is_int(a) and is_int(b):
+                r = a == b                        # enum members (modelled as their ordinal)
             elif isinstance(a, (PyObj, PyConst)) or isinstance(b, (PyObj, PyConst)):
                 r = eq(a, b)
             elif isinstance(a, PyAbsList) and isinstance(b, PyAbsList):
@@ -496,6 +498,8 @@ class ExprMixin:
         if c.name == "Token":
             if attr in self.token_enum:
                 return z3.IntVal(self.token_enum[attr])
+        if c.name == "Target" and attr in ("FOR_TARGETS", "STAR_TARGETS", "DEL_TARGETS"):
+            return z3.IntVal({"FOR_TARGETS": 1, "STAR_TARGETS": 2, "DEL_TARGETS": 3}[attr])        # enum.auto() in declaration order
         if c.name == "sys" and attr == "version_info":
             return PyTuple([z3.IntVal(3), z3.IntVal(12)])
         if c.name == "ast" and attr == "literal_eval":
